@@ -39,7 +39,7 @@ class World:
         self.np, self.pd, self.FRH, self.mfns = np, pd, FRH, mfns
         self.budget = budget
         self.cache = MemoryCache(budget / 2 ** 20)
-        assert self.cache.memory_cache_bytes == budget
+        self.budget_honoured = (self.cache.memory_cache_bytes == budget)     # (checked by execute(): a finding, not a crash)
         self.refs = {f: mfns.fn_ref(getattr(mfns, n), None if v == "1" else v) for f, (n, v) in FNS.items()}
         self.fwa = {(f, a): mfns.with_args(self.refs[f], a) for f in FNS for a in ARGS}
         self.mementos = {}       # mid -> memento (strongly held)
@@ -275,6 +275,10 @@ def execute(budget, ops, use_model=True):
     w.kind_of = {}
     model = shared_model() if use_model else None
     res = dict(oracle=[], mismatch=[], transcript=[])
+    if not w.budget_honoured:
+        res["oracle"].append(dict(step=0, op=ops[0] if ops else None, clause="configured-budget-honoured", configured_bytes=budget,
+                                  effective_bytes=repr(w.cache.memory_cache_bytes)))
+        return res
     try:
         if model:
             model.send("init %d" % budget)
